@@ -82,6 +82,7 @@ class Actor:
         self.pending_exc = None
         self.thread = None
         self.exited = None
+        self.ctx = None           # None = main process; else (executor id, worker slot)
 
     def ready(self, now):
         if self.cond is not None:
@@ -117,6 +118,10 @@ class Sim:
         self.ntasks = 0
         self.max_concurrent = 0
         self.trace_hook = None
+        # process-global state model (see ProcessGlobals)
+        self.pglobals = None
+        self.live_ctx = 'main'
+        self.saved_ctx = {}
 
     # -- time ---------------------------------------------------------------
     def perf_counter(self):
@@ -146,6 +151,28 @@ class Sim:
             me.deadline = None
             me.wake_at = self.now
         return bool(cond())
+
+    # -- process-global state ------------------------------------------------
+    def use_process_globals(self, pglobals):
+        self.pglobals = pglobals
+
+    def _enter_ctx(self, actor):
+        """Install the process-global state of the process ``actor`` runs in."""
+        if self.pglobals is None:
+            return
+        ctx = getattr(actor, 'ctx', None) or 'main'
+        if ctx == self.live_ctx:
+            return
+        self.saved_ctx[self.live_ctx] = self.pglobals.snapshot()
+        self.pglobals.install(self.saved_ctx[ctx])
+        self.live_ctx = ctx
+
+    def main_state(self):
+        if self.pglobals is None:
+            return None
+        if self.live_ctx == 'main':
+            return self.pglobals.snapshot()
+        return self.pglobals.copy(self.saved_ctx['main'])
 
     def _pick(self):
         while True:
@@ -177,6 +204,7 @@ class Sim:
                 self.main.pending_exc = self.aborted
                 nxt = self.main
         if nxt is not me:
+            self._enter_ctx(nxt)
             self.current = nxt
             nxt.sem.release()
             me.sem.acquire()
@@ -194,6 +222,7 @@ class Sim:
                 self.aborted = SimDeadlock(f'deadlock at t={self.now}')
                 self.main.pending_exc = self.aborted
                 nxt = self.main
+        self._enter_ctx(nxt)
         self.current = nxt
         nxt.sem.release()
 
@@ -202,6 +231,7 @@ class Sim:
         """Unwind every parked task thread.  Must be called from main."""
         self.aborted = self.aborted or _Kill()
         self.killing = True
+        self._enter_ctx(self.main)
         for a in list(self.actors):
             if a is self.main or a.thread is None:
                 continue
@@ -345,9 +375,20 @@ class SimFuture:
 class SimExecutor:
     """Drop-in for ProcessPoolExecutor (the subset Loki uses)."""
 
-    def __init__(self, max_workers=None, **kwargs):  # pylint: disable=unused-argument
+    def __init__(self, max_workers=None, mp_context=None, **kwargs):  # pylint: disable=unused-argument
         self.sim = current()
         self.n = max_workers or 4
+        method = None
+        if mp_context is not None:
+            method = mp_context if isinstance(mp_context, str) else \
+                getattr(mp_context, 'get_start_method', lambda: None)() or getattr(mp_context, '_name', None)
+        if method is None:
+            import multiprocessing  # pylint: disable=import-outside-toplevel
+            method = multiprocessing.get_start_method(allow_none=True) or 'fork'
+        self.start_method = method
+        self.eid = len(self.sim.executors)
+        self.slots = {}               # slot index -> running future or None
+        self.fork_state = None
         self.queue = []
         self.running = []
         self.done_order = []
@@ -378,6 +419,9 @@ class SimExecutor:
             self.done_order.append(fut)
             return fut
         sim.run.event('submit', fut.tid)
+        if self.fork_state is None and sim.pglobals is not None:
+            # fork: all workers are launched at the first submit and inherit the parent's state then
+            self.fork_state = sim.main_state()
         self.queue.append(fut)
         self._dispatch()
         # the submitting thread is pre-emptible here: workers may make progress
@@ -394,6 +438,16 @@ class SimExecutor:
             self.running.append(fut)
             sim.max_concurrent = max(sim.max_concurrent, sum(len(e.running) for e in sim.executors))
             a = Actor(f't{fut.tid}')
+            slot = next(i for i in range(self.n) if self.slots.get(i) is None)
+            self.slots[slot] = fut
+            fut.slot = slot
+            a.ctx = (self.eid, slot)
+            if sim.pglobals is not None and a.ctx not in sim.saved_ctx:
+                # a new worker process: fork inherits the parent's globals, spawn/forkserver re-import
+                sim.saved_ctx[a.ctx] = sim.pglobals.copy(self.fork_state) if self.start_method == 'fork' \
+                    else sim.pglobals.spawn_state()
+                if self.start_method != 'fork':
+                    sim.run.probe('spawned_workers')
             lat = sim.dispatch_latencies[sim.ch.choose('latency', len(sim.dispatch_latencies))] \
                 if len(sim.dispatch_latencies) > 1 else sim.dispatch_latencies[0]
             a.wake_at = sim.now + lat
@@ -404,6 +458,7 @@ class SimExecutor:
             a.thread.carry(fut._body)
 
     def _finished(self, fut):
+        self.slots[fut.slot] = None
         self.running.remove(fut)
         self.done_order.append(fut)
         self._dispatch()
@@ -621,8 +676,124 @@ class SimQueueProxy(_Proxy):
         return not self._obj
 
 
+class ProcessGlobals:
+    """
+    Model of per-process global state.  The baton threads share one address
+    space, real worker processes do not: each cell names a process-global
+    mutable object; the simulator swaps its content whenever the baton moves
+    between processes (main <-> worker slot), so a worker sees what a forked
+    (state at first submit) or spawned (import-time state) process would see,
+    and what it mutates stays in that worker.
+
+    cells: list of (name, get_state, set_state); states must be independent copies.
+    """
+
+    def __init__(self, cells, spawn):
+        self.cells = cells
+        self._spawn = spawn
+
+    def snapshot(self):
+        return [get() for _, get, _ in self.cells]
+
+    def install(self, states):
+        for (_, _, setter), st in zip(self.cells, states):
+            setter(st)
+
+    def copy(self, states):
+        import copy as _copy  # pylint: disable=import-outside-toplevel
+        return _copy.deepcopy(states)
+
+    def spawn_state(self):
+        return self.copy(self._spawn)
+
+
+class SimValueProxy(_Proxy):
+    def get(self):
+        self._op('value.get')
+        return _load(self._obj[0])
+
+    def set(self, v):
+        self._op('value.set')
+        self._obj[0] = _store(v)
+
+    value = property(get, set)
+
+
+class SimNamespaceProxy(_Proxy):
+    def __getattr__(self, k):
+        if k.startswith('_'):
+            raise AttributeError(k)
+        self._op('ns.get')
+        try:
+            return _load(self._obj[k])
+        except KeyError:
+            raise AttributeError(k) from None
+
+    def __setattr__(self, k, v):
+        if k.startswith('_'):
+            object.__setattr__(self, k, v)
+            return
+        self._op('ns.set')
+        self._obj[k] = _store(v)
+
+
+class SimLockProxy(_Proxy):
+    """Lock / RLock: blocking acquire is a simulator wait, never a real one."""
+
+    def acquire(self, blocking=True, timeout=None):
+        sim = current()
+        self._op('lock.acquire')
+        st = self._obj
+        me = sim.current.name
+        if st['rlock'] and st['owner'] == me:
+            st['count'] += 1
+            return True
+        if not blocking:
+            if st['owner'] is not None:
+                return False
+        elif not sim.wait(lambda: st['owner'] is None, None if timeout in (None, -1) else timeout):
+            return False
+        st['owner'] = me
+        st['count'] = 1
+        return True
+
+    def release(self):
+        self._op('lock.release')
+        st = self._obj
+        st['count'] -= 1
+        if st['count'] <= 0:
+            st['owner'] = None
+            st['count'] = 0
+
+    def __enter__(self):
+        self.acquire()
+        return self
+
+    def __exit__(self, *a):
+        self.release()
+        return False
+
+
+class SimEventProxy(_Proxy):
+    def set(self):
+        self._op('event.set')
+        self._obj[0] = True
+
+    def clear(self):
+        self._op('event.clear')
+        self._obj[0] = False
+
+    def is_set(self):
+        self._op('event.is_set')
+        return self._obj[0]
+
+    def wait(self, timeout=None):
+        self._op('event.wait')
+        return current().wait(lambda: self._obj[0], timeout)
+
+
 class SimManager:
-    """Drop-in for multiprocessing.Manager() (dict / list / Queue)."""
+    """Drop-in for multiprocessing.Manager() (dict / list / Queue / Value / Lock / ...)."""
 
     def __init__(self, *a, **kw):  # pylint: disable=unused-argument
         self.sim = current()
@@ -646,6 +817,26 @@ class SimManager:
 
     def Queue(self, *a, **kw):  # pylint: disable=unused-argument
         return self._new(SimQueueProxy, [])
+
+    JoinableQueue = Queue
+
+    def Value(self, typecode, value, *a, **kw):  # pylint: disable=unused-argument,invalid-name
+        return self._new(SimValueProxy, [_store(value)])
+
+    def Namespace(self):  # pylint: disable=invalid-name
+        return self._new(SimNamespaceProxy, {})
+
+    def Lock(self):  # pylint: disable=invalid-name
+        return self._new(SimLockProxy, {'owner': None, 'count': 0, 'rlock': False})
+
+    def RLock(self):  # pylint: disable=invalid-name
+        return self._new(SimLockProxy, {'owner': None, 'count': 0, 'rlock': True})
+
+    def Event(self):  # pylint: disable=invalid-name
+        return self._new(SimEventProxy, [False])
+
+    def Array(self, typecode, seq):  # pylint: disable=unused-argument,invalid-name
+        return self.list(seq)
 
     def shutdown(self):
         pass
